@@ -19,8 +19,9 @@ GOOD = {
     'TIMETICKS': ['200', '10.0', '1e3', '0'],
     '$BTIM': ['12:00:01', '9:5:7', '17:45:23.5', '12:03:09:20', '00:00:00:0', '23:59:59:59', '08:15:30.25', '10:11:12:3', '01:02:03:1', '10:11:12:0.5', '05:06:07.05'],
     '$ETIM': ['12:03:07', '10:6:9', '18:00:00.75', '12:04:10:30', '00:10:00:15', '23:59:59', '07:00:00', '10:11:13:05', '10:11:13:2.25', '11:00:00.007'],
-    '$DATE': ['02-OCT-2015', '2-oct-15', '15-Oct-02', '2015-OCT-31', '99-jan-05', '29-FEB-2016', '01-JAN-70'],
-    'V': ['450', '500.5', ' 650', '7e2'], 'G': ['1', '2.0', '0.5', '8'], 'S': ['CD4 label', 'x'],
+    # two-digit years follow the fixed pivot of strptime (69-99 -> 19xx, 00-68 -> 20xx), also when that lies in the future
+    '$DATE': ['02-OCT-2015', '2-oct-15', '15-Oct-02', '2015-OCT-31', '99-jan-05', '29-FEB-2016', '01-JAN-70', '07-Mar-68', '29-Feb-48', '55-Oct-31', '31-dec-68', '01-jan-69'],
+    'V': ['450', '500.5', ' 650', '7e2'], 'G': ['1', '2.0', '0.5', '8'], 'S': ['CD4 label', 'x', ' CD8 PE', 'GFP     ', ' ', '  padded  '],
 }
 BAD = {
     '$TIMESTEP': ['abc', '1,5', '0.01s', '--1', '1_', 'e5'],
